@@ -144,6 +144,8 @@ fn run_c16(cfg: &Cfg, rep: &mut Report) {
         };
         if phase == "delayed" {
             env.stub.update_delay_ms.store(10, std::sync::atomic::Ordering::Relaxed);
+            // reads take a while too: widens the window between a handler's own book-keeping and the data it reads
+            env.stub.set_latency("find", "adf-problems", 8);
         }
         let ccfg = c16::C16Cfg { nmax, delayed: phase == "delayed" };
         let n = if phase == "plain" { cfg.cases } else { (cfg.cases / 3).max(2) };
